@@ -158,7 +158,9 @@ class CIDRConvertNative(Contract):
 
     def setup(self, E):
         E.summaries["sigma.types:SigmaString"] = lambda I, so, a, k: SObj("SigmaStringOf", {"src": a[0] if a else None})
-        E.summaries["sigma.conversion.base:Backend.convert_condition"] = lambda I, so, a, k: SObj("converted", {"cond": a[0], "state": a[1]})
+        E.summaries["sigma.conversion.base:Backend.convert_condition"] = lambda I, so, a, k: SObj("converted", {"cond": a[0], "state": a[1], "grouped": False})
+        E.summaries["sigma.conversion.base:TextQueryBackend.convert_condition_group"] = lambda I, so, a, k: SObj("converted", {"cond": a[0], "state": a[1], "grouped": True})
+        E.summaries["sigma.conversion.base:Backend.decide_convert_condition_as_in_expression"] = lambda I, so, a, k: so.ghost["as_in"]
 
     def args(self, I, case):
         cap = {}
@@ -173,6 +175,7 @@ class CIDRConvertNative(Contract):
         cond = SObj(I.E.index.lookup("sigma.conditions:ConditionFieldEqualsValueExpression"), {"field": I.fresh("field", "str"), "value": cidr, "source": None}, lazy=True)
         me = SObj(I.E.index.lookup("sigma.conversion.base:TextQueryBackend"), {"cidr_expression": SObj("Template", {"format": NativeFn("format", fmt)}) if case == "native" else None}, lazy=True)
         st = I.fresh("state", "opaque", "State")
+        me.ghost["as_in"] = I.fresh("as_in_list", "bool")
         return {"self": me, "args": [cond, st], "cap": cap, "net": net, "cond": cond, "pats": pats, "case": case, "state": st}
 
     def post(self, I, inp, r):
@@ -193,6 +196,7 @@ class CIDRConvertNative(Contract):
                                                                           and x.fields["value"].fields.get("src") is p for x, p in zip(args_, inp["pats"]))
                 c.require(good, "one field == SigmaString(pattern) comparison per expanded pattern, same field, in order")
                 c.require(r.fields.get("state") is inp["state"], "conversion state passed on")
+                c.require(z3.BoolVal(bool(r.fields.get("grouped"))) == z3.Not(inp["self"].ghost["as_in"].t), "an expansion into several patterns is grouped unless it is folded into an in-list (it is an OR inside an unknown context)")
 
     def frame_ok(self, I, inp, obj, name):
         return False
